@@ -40,9 +40,8 @@ func (st *IoServer) String() string {
 //goland:noinspection GoUnusedParameter
 func (st *IoServer) Startup(channels Channels) error {
 
-	var errs error
 	if upstreams, err := channels.Filter(st.Channels); err != nil {
-		return errors.WithStack(errs)
+		return errors.WithStack(err)
 	} else {
 		st.upstreams = upstreams
 	}
